@@ -53,7 +53,7 @@ def _is_authorized_type(tpe: Type[Any], gctx: EvalMainContext) -> bool:
 
     Note: the hierarchy is currently only concerned with modules, not with any sub-object.
     """
-    if tpe is None:
+    if tpe is None or tpe is type(None):
         return True
     if tpe in (int, float, bool, str, bytes, PurePosixPath, FunctionType, ModuleType):
         return True
